@@ -190,7 +190,7 @@ def _obj(it):
     if k == 'N':
         return common.make_net(ver, it[2], it[3])
     if k == 'R':
-        return IPRange(IPAddress(it[2], ver), IPAddress(it[3], ver))
+        return common.make_range(ver, it[2], it[3])
     if k == 'I':
         return it[2]
     return _text(it)
